@@ -3,8 +3,28 @@ CHECKS = {
    technique="SMT equivalence (z3 bit-vectors+arrays) of lifted IL vs SDM-derived reference, per generated encoding, all states symbolic; CPU replay of counterexamples",
    text="For each generated x86/amd64 encoding the IL returned by the real translate_block is encoded in SMT and compared with a reference written from the Intel SDM; unsat means the instruction is lifted correctly for every register/flag/memory state. Encodings are enumerated (bounded corpus), states are not.",
    note="Trusts z3, smt/ilsem.py (tied to the code by C04), specs/x86.py (my SDM reading; amd64 counterexamples are executed on the host CPU and only reported if the CPU agrees with the reference). Undefined flags masked; #DE states assumed away; REP count bounded."),
+ "C10": dict(engine="il2smt", level="translation_validation", ref="DESIGN.md §5 C10",
+   technique="SMT product-program equivalence (bounded, guarded-merge BMC) of f and ssa_transformation(f), all initial states symbolic",
+   text="The real ssa_transformation output is executed in lock-step with its input (phi nodes select by incoming edge); z3 decides whether any initial state makes a path, store, branch target or assigned value differ within k block-steps. SSA validity (single assignment, one phi input per predecessor, same shape) is checked on the artefact.",
+   note="Functions are a generated/lifted family (enumerated); states are symbolic. Bound: k = 3x/6x longest acyclic path. Trusts z3 and smt/ilsem.py."),
+ "C12": dict(engine="il2smt", level="model_checking", ref="DESIGN.md §5 C12",
+   technique="bounded model checking with a ghost last-writer per scalar (z3); path search over falcon's own location relation for precision",
+   text="Real reaching_definitions/use_def/def_use tables are checked against all executions <= k block-steps of each function: the solver looks for an execution whose last writer of a scalar is not listed. Precision and the def-use inverse are ground checks on the tables.",
+   note="Functions enumerated, executions/states symbolic; bound k. Paths end at indirect branches/intrinsics as in the executor."),
+ "C13": dict(engine="il2smt", level="model_checking", ref="DESIGN.md §5 C13",
+   technique="bounded model checking with ghost assigned-bits (z3): reported constant vs. value on every execution",
+   text="Real constants() tables and Constants::eval results are checked against all executions <= k block-steps: the solver looks for an execution reaching a location with an assigned scalar (or probe expression) different from the reported constant. Completion is required on functions that initialise every scalar.",
+   note="Functions enumerated, executions symbolic; bound k."),
+ "C14": dict(engine="il2smt", level="translation_validation", ref="DESIGN.md §5 C14",
+   technique="SMT product-program equivalence (bounded BMC) of f and dead_code_elimination(f) with attribution of removals",
+   text="Input and output of the real dead_code_elimination are run in lock-step from a common symbolic state; z3 decides whether edges taken, stores, state presented to branches/intrinsics or final scalars can differ. Removals not explained by a listed defect role are re-checked in isolation so that a new cause is not masked.",
+   note="Functions enumerated (including blocks with non-dense instruction indices); states symbolic; bound k; input assumed fault-free within k."),
+ "C17": dict(engine="il2smt", level="model_checking", ref="DESIGN.md §5 C17",
+   technique="bounded model checking (z3): sp after each location == entry sp + reported offset, for 7 architectures",
+   text="Real stack_pointer_offsets() results for the seven Architecture objects are checked against all executions <= k of lifted prologue/epilogue code and generated functions; arithmetic modulo 2^width of the stack pointer.",
+   note="Functions enumerated, executions symbolic; bound k. Completion required only when the entry block has no incoming edge."),
 }
 _UC = "check under construction in this round; not claimed yet"
-NA = {p: _UC for p in ["C02","C03","C04","C05","C06","C07","C08","C09","C10","C12","C13","C14","C15","C16","C17","C19","C20"]}
+NA = {p: _UC for p in ["C02","C03","C04","C05","C06","C07","C08","C09","C15","C16","C19","C20"]}
 NA["C11"] = "pure graph-shape property over BTreeMap/hash-map container code: no value dimension to make symbolic; Kani cannot leave symex on 3 vertices (DESIGN.md §0, §6); enumerating graphs would be a different technique"
 NA["C18"] = "purely structural property of container-walking code; nothing for a solver to quantify over once the shape is concrete (DESIGN.md §6)"
